@@ -299,17 +299,33 @@ func c19TmplExec(c *mon.Case) {
 			}
 		}
 	}
+	// default variables that name only every second variable of the template (the caller's map: rendering must not write to it)
+	defaults := map[string]string{}
+	for i, n := range model.TemplateNames(nodes) {
+		if i%2 == 0 {
+			defaults[n] = "D" + strconv.Itoa(i)
+		}
+	}
+	defaultsBefore := fmt.Sprint(defaults)
+	withDefaults := func() *mustache.MustacheTemplate {
+		x := mustache.NewMustacheTemplate()
+		x.SetTemplate(src)
+		x.SetDefaultVariables(defaults)
+		return x
+	}
+	wantDefault := func() string {
+		s, err := withDefaults().EvaluateWithVariables(defaults)
+		return fmt.Sprintf("%q %v", s, err)
+	}()
 	// the concurrent phase runs on a template instance that has never rendered anything
-	t = mustache.NewMustacheTemplate()
-	t.SetTemplate(src)
+	t = withDefaults()
 	before = mtoks(t.ResultTokens())
 	h3.seed = seed
 	bad := make([]string, G)
 	for pass := 1; pass <= 2; pass++ { // pass 2: hooks removed, see shared-calculator
 		if pass == 2 {
 			mustache.VerifEvalHook = nil
-			t = mustache.NewMustacheTemplate()
-			t.SetTemplate(src)
+			t = withDefaults()
 		} else {
 			atomic.StoreInt32(&h3.enabled, 1)
 		}
@@ -330,6 +346,14 @@ func c19TmplExec(c *mon.Case) {
 						bad[gi] = fmt.Sprintf("goroutine %d, rendering %d, variables=%q: sequential %s, concurrent %s", gi, n, own, want[k], got)
 						return
 					}
+					if n%4 == 0 { // and with the template's default variables (only some of the names are set there)
+						var s string
+						var err error
+						if p := mon.Try(func() { s, err = t.Evaluate() }); p != nil || fmt.Sprintf("%q %v", s, err) != wantDefault {
+							bad[gi] = fmt.Sprintf("goroutine %d, rendering %d with the default variables %q: sequential %s, concurrent %q %v %v", gi, n, defaults, wantDefault, s, err, p)
+							return
+						}
+					}
 				}
 			}(gi)
 		}
@@ -349,6 +373,10 @@ func c19TmplExec(c *mon.Case) {
 			c.Failf("concurrent rendering of one parsed template differs from the sequential result", "template=%q\n%s", src, b)
 			return
 		}
+	}
+	if now := fmt.Sprint(defaults); now != defaultsBefore {
+		c.Failf("rendering wrote into the default variables the caller had set", "template=%q default variables before %s, after %s", src, defaultsBefore, now)
+		return
 	}
 	if after := mtoks(t.ResultTokens()); after != before {
 		c.Failf("rendering modified the compiled template", "template=%q\nbefore %s\nafter  %s", src, before, after)
@@ -445,7 +473,7 @@ func buildC19(cfg *mon.Config) []*mon.Sub {
 	tmpls := &mon.Sub{
 		Name:   "shared-template",
 		Serial: true,
-		Rule:   fmt.Sprintf("%d seeded templates (C10 generator) rendered sequentially under 6 variable maps twice and then by G in {2,4,16} goroutines sharing the parsed template, each with its own map, with H3 yields inside the rendering; results must equal the sequential ones and the compiled token tree must be unchanged; under the race detector", cfg.N(100, 3000)),
+		Rule:   fmt.Sprintf("%d seeded templates (C10 generator) rendered sequentially under 6 variable maps twice and then by G in {2,4,16} goroutines sharing the parsed template, each with its own map, with H3 yields inside the rendering; every fourth rendering uses the template's default variables, which the caller has set to a map naming only every second variable; results must equal the sequential ones, the compiled token tree and the caller's default map must be unchanged; under the race detector", cfg.N(100, 3000)),
 		Floor:  50,
 		Gen: func(emit func(string)) {
 			r := cfg.Rng("c19-tmpl")
@@ -612,7 +640,7 @@ func buildC19(cfg *mon.Config) []*mon.Sub {
 		Rule:       "evaluation does not modify variable values, so several collections may hold the very same value objects: expressions over arrays, strings, date-times and numbers (array equality and inequality, IN, indexing, Array(...) of arrays, concatenation, comparisons) are evaluated by 2, 4 and 16 goroutines sharing the calculator, each with its own collection object whose variables all point at ONE shared set of value variants; every result must equal the sequential one, the shared values must be unchanged afterwards, and the race detector must see no write to them; between evaluations the goroutines also call Equals, Clone, Length and GetByIndex directly on one shared 300-element array variant (against an equal copy and a copy with another first element); a case is one evaluation",
 		Exhaustive: true, DistinctByGen: true, Floor: 50,
 		Gen: func(emit func(string)) {
-			for _, e := range []string{"arr = arr2", "arr <> sarr", "arr = arr", "Array(arr, arr2) = Array(arr, arr2)", "a IN arr", "arr IN Array(arr, arr2)", "arr[1] + arr2[0]", "s + t + s", "dt > ds", "If(arr = arr2, a, b)", "Contains(s, t)", "Max(a, b, l, x)", "-a + +b", "NOT p", "n IS NULL", "nested = nested", "nested[0] = arr"} {
+			for _, e := range []string{"a IN arr AND b NOT IN arr2", "7 IN nested[1] OR c IN arr", "arr = arr2", "arr <> sarr", "arr = arr", "Array(arr, arr2) = Array(arr, arr2)", "a IN arr", "arr IN Array(arr, arr2)", "arr[1] + arr2[0]", "s + t + s", "dt > ds", "If(arr = arr2, a, b)", "Contains(s, t)", "Max(a, b, l, x)", "-a + +b", "NOT p", "n IS NULL", "nested = nested", "nested[0] = arr"} {
 				for _, g := range []int{2, 4, 16} {
 					emit(e + "\x00" + strconv.Itoa(g) + "\x00" + strconv.Itoa(cfg.N(40, 800)))
 				}
@@ -633,6 +661,14 @@ func buildC19(cfg *mon.Config) []*mon.Sub {
 			shared := make([]*variants.Variant, len(e.vals))
 			for i, v := range e.vals {
 				shared[i] = v.Variant()
+				if v.T == "A" && len(v.E) > 0 {
+					// arrays filled by indexed writes: their lists usually have spare capacity behind the last element
+					grown := variants.VariantFromArray(nil)
+					for k, el := range v.E {
+						grown.SetByIndex(k, el.Variant())
+					}
+					shared[i] = grown
+				}
 			}
 			mk := func() *variables.VariableCollection {
 				vc := variables.NewVariableCollection()
